@@ -1,12 +1,15 @@
 //! Generic runtime (C02, C10, C11): drives the real `Runtime<App>` over the real
 //! calendar queue.  Script (see coq/Runtime/Model.v):
-//!   n t u start budget  nb {bcall}  K {na {action}}  np {time label}  {sop}
+//!   n t u start budget cbk cbt  nb {bcall}  K {na {action}}  np {time label}  {sop}
 //!     bcall  = 1 n (max_itr) | 2 T (max_time) | 3 tree (limit)
 //!     tree   = 0 | 1 n | 2 T | 3 tree tree (And) | 4 tree tree (Or)
 //!     action = kind x label   (kind 0: add_event_in(label, x ns); else add_event(label, x ns))
 //!     sop    = 1 k (dispatch_n_events) | 2 T (dispatch_events_until) | 3 time label (add_event)
 //! Every time (start, limits, delays, absolute times, step arguments) is given in units of u ns
 //! (u = 0 means 1) and printed divided by u; n, t are plain nanoseconds.
+//! cbk/cbt: "concurrent build" -- when cbk > 0 the handler of the cbk-th dispatched event of each run first spawns a
+//! thread that calls `Builder::..start_time(cbt).build(..)` and waits until that thread has reached the simulation
+//! lock; on the unchanged crate the thread just blocks there and nothing observable happens.
 //! Three runs of the same program are printed one after the other: without a limit
 //! (`run()`), with the configured limit (`run()`), and stepped (`start()`, the schedule,
 //! `dispatch_all()`, `finish()`) with the configured limit.  Records:
@@ -29,6 +32,8 @@ fn main() {
 struct App {
     table: Vec<Vec<(u64, u64, u64)>>,
     budget: u64,
+    /// concurrent build: (dispatch number at which another thread calls Builder::build, its start time)
+    cb: Option<(u64, u64)>,
     log: Vec<(u64, u64)>,
     adds: Vec<(u64, u64, u64, u64, bool)>,
 }
@@ -72,8 +77,43 @@ fn add_abs(rt: &mut Runtime<App>, time: u64, label: u64, ctx: u64) -> bool {
     ok
 }
 
+/// the thread of the "concurrent build" dimension, joined once the main runtime is gone
+static INTRUDER: std::sync::Mutex<Option<std::thread::JoinHandle<()>>> = std::sync::Mutex::new(None);
+
+/// Another thread builds a second runtime while this one is dispatching.  It must block on the
+/// simulation lock without touching the process-global clock; we wait until it had ample time to get there.
+fn concurrent_build(start: u64) {
+    use std::sync::atomic::{AtomicBool, Ordering};
+    use std::sync::Arc;
+    let reached = Arc::new(AtomicBool::new(false));
+    let r2 = reached.clone();
+    let h = std::thread::spawn(move || {
+        let b = Builder::seeded(2).quiet().start_time(st(start));
+        r2.store(true, Ordering::SeqCst);
+        let rt = b.build(App { table: Vec::new(), budget: 0, cb: None, log: Vec::new(), adds: Vec::new() });
+        drop(rt);
+    });
+    while !reached.load(Ordering::SeqCst) {
+        std::thread::yield_now();
+    }
+    std::thread::sleep(std::time::Duration::from_millis(3));
+    *INTRUDER.lock().unwrap_or_else(|p| p.into_inner()) = Some(h);
+}
+
+fn join_intruder() {
+    let h = INTRUDER.lock().unwrap_or_else(|p| p.into_inner()).take();
+    if let Some(h) = h {
+        let _ = h.join();
+    }
+}
+
 impl Event<App> for Ev {
     fn handle(self, rt: &mut Runtime<App>) {
+        if let Some((k, start)) = rt.app.cb {
+            if k == rt.num_events_dispatched() as u64 {
+                concurrent_build(start);
+            }
+        }
         let now = ns(SimTime::now());
         rt.app.log.push((self.label, now));
         let ctx = rt.num_events_dispatched() as u64;
@@ -136,6 +176,7 @@ struct Script {
     t: u64,
     start: u64,
     budget: u64,
+    cb: Option<(u64, u64)>,
     calls: Vec<BCall>,
     table: Vec<Vec<(u64, u64, u64)>>,
     pre: Vec<(u64, u64)>,
@@ -158,7 +199,7 @@ fn build(sc: &Script, limited: bool) -> Runtime<App> {
             };
         }
     }
-    b.build(App { table: sc.table.clone(), budget: sc.budget, log: Vec::new(), adds: Vec::new() })
+    b.build(App { table: sc.table.clone(), budget: sc.budget, cb: sc.cb, log: Vec::new(), adds: Vec::new() })
 }
 
 fn fin(res: Result<(App, SimTime, Profiler<Ev>), des::runtime::RuntimeError>, out: &mut Vec<u64>) {
@@ -205,6 +246,8 @@ fn run_line(nums: &[u64]) -> Vec<u64> {
     let mut c = Cur::new(&nums[3..]);
     let start = c.next();
     let budget = c.next();
+    let (cbk, cbt) = (c.next(), c.next());
+    let cb = if cbk > 0 { Some((cbk, cbt)) } else { None };
     let calls = dec_counted(&mut c, |c| match c.next() {
         1 => BCall::MaxItr(c.next()),
         2 => BCall::MaxTime(c.next()),
@@ -221,7 +264,7 @@ fn run_line(nums: &[u64]) -> Vec<u64> {
             _ => break,
         }
     }
-    let sc = Script { n: nums[0] as usize, t: nums[1], start, budget, calls, table, pre, sched };
+    let sc = Script { n: nums[0] as usize, t: nums[1], start, budget, cb, calls, table, pre, sched };
     let mut out = Vec::new();
 
     // (U) no limit, (A) configured limit: Runtime::run()
@@ -229,6 +272,7 @@ fn run_line(nums: &[u64]) -> Vec<u64> {
         let mut rt = build(&sc, limited);
         pre_adds(&mut rt, &sc, &mut out);
         fin(rt.run(), &mut out);
+        join_intruder();
     }
 
     // (B) stepped, configured limit
@@ -262,5 +306,6 @@ fn run_line(nums: &[u64]) -> Vec<u64> {
     }
     rt.dispatch_all();
     fin(rt.finish(), &mut out);
+    join_intruder();
     out
 }
